@@ -1,8 +1,9 @@
 --------------------------------- MODULE ValSet ---------------------------------
 (* gemmill/types/validator_set.go + validator.go as implemented: the weighted round-robin       *)
 (* proposer selection, its two unexported caches (proposer, totalVotingPower), Copy, the          *)
-(* Add/Update/Remove mutators as plugin/admin_op.go uses them, and the go-wire persistence        *)
-(* round trip of state.State.Save/LoadState, which keeps only the exported field Validators.      *)
+(* Add/Update/Remove mutators as plugin/admin_op.go uses them, and the persistence round trip of  *)
+(* state.State.Save/LoadState: go-wire keeps only the exported field Validators, the address of   *)
+(* the proposer is stored next to the state and restored by ValidatorSet.SetProposer.             *)
 (*                                                                                                *)
 (* Several sets live side by side in `sets` (slot 1 is built by NewValidatorSet, the other slots  *)
 (* are filled by Copy) so that aliasing between a set and copies handed out earlier is a visible  *)
@@ -115,10 +116,12 @@ Remove(s, i, r) ==
                /\ nmut' = nmut + 1
           ELSE UNCHANGED <<sets, nmut>>
 
-(* State.Save(); LoadState(): go-wire writes the exported field Validators only, both caches are lost *)
+(* State.Save(); LoadState().  Save asks Proposer() (which fills an empty cache) and stores its address beside *)
+(* the wire form of the set; the wire form keeps the exported field Validators only; loadState puts the         *)
+(* proposer back with SetProposer.  The cached total is lost.                                                   *)
 Reload(s) ==
   /\ Live(s)
-  /\ sets' = [sets EXCEPT ![s] = [@ EXCEPT !.prop = 0, !.tvp = 0]]
+  /\ sets' = [sets EXCEPT ![s] = [sets[s] EXCEPT !.prop = Proposer(sets[s]), !.tvp = 0]]
   /\ res' = [op |-> "Reload", s |-> s]
   /\ UNCHANGED nmut
 
@@ -188,12 +191,10 @@ CopyIndependent ==
 RejectNoChange ==
   [][ (res'.op \in {"Add", "Update", "Remove"} /\ ~res'.r) => sets' = sets ]_vars
 
-(* the persistence round trip does not change who the proposer is.  NOT satisfied by the code:   *)
-(* the cache is unexported, so after LoadState Proposer() is recomputed from the accums AFTER the *)
-(* decrement and names another validator.  Checked in MC_ValSet_reload.cfg, whose counterexample  *)
-(* is replayed on the real code (KNOWN_FINDINGS key ReloadPreservesProposer).                     *)
+(* the persistence round trip (restart) does not change who the proposer is, nor the validators *)
 ReloadPreservesProposer ==
-  [][ res'.op = "Reload" => Proposer(sets'[res'.s]) = Proposer(sets[res'.s]) ]_vars
+  [][ res'.op = "Reload" => /\ Proposer(sets'[res'.s]) = Proposer(sets[res'.s])
+                            /\ [sets'[res'.s] EXCEPT !.prop = 0, !.tvp = 0] = [sets[res'.s] EXCEPT !.prop = 0, !.tvp = 0] ]_vars
 
 (* asking never changes the answer: the observers only fill caches *)
 ObserversPure ==
